@@ -14,6 +14,7 @@ STATUS = {
     'C10-7': ('obsolete', 'since 01af400 a plain date reaches the class as a date-time: the comparison of plain dates it changed is no longer reached through the public API'),
     'C16-5': ('not-kept', 'demands more than the statement (1 ulp beyond 15 significant digits)'),
     'C11-7': ('outside-asserted-domain', 'dates under AVERAGE: the statement does not say whether a date is a numeric cell'),
+    'C17-15': ('not-kept', 'demands more than the statement: whole numbers beyond 2**53 given as text come back as the nearest double instead of the exact integer - an Excel number is a double (15 digits), the statement does not promise exact integers'),
     'C09-12': ('changed-by-fix', 'since 30a138b a cell that holds an object is rejected at translation: the change now makes workbooks with array formulas untranslatable (C18 / C06) instead of putting an address into the text'),
 }
 rows = []
